@@ -18,7 +18,7 @@
 // iff `r_bp(a) < l_bp(b)`.
 //
 // Input layout (order of kani::any() calls; keep in sync with LAYOUTS in run_kani.py):
-//   p_a: i32, right_a: bool, p_b: i32, right_b: bool
+//   p_a: i32, right_a: bool, p_b: i32, right_b: bool, _marker: u8 (see cex_marker)
 
 use super::*;
 use crate::define::Result;
@@ -78,6 +78,16 @@ fn forged_manager() -> InfixOpManager {
     }
 }
 
+/// Drawn after the last kani::cover! and immediately before the assertions of a harness. Concrete
+/// playback extracts the kani::any() values of the trace *up to* the property, and Kani drops a
+/// playback test that is identical to the one printed just before it; this extra byte makes the
+/// value list of every harness assertion differ from that of every cover, so the counterexample
+/// of a failed assertion is always printed. (Layout: trailing `_marker: u8` in run_kani.py.)
+fn cex_marker() {
+    let m: u8 = kani::any();
+    kani::assume(m == 0xA5);
+}
+
 struct Table {
     p_a: i32,
     right_a: bool,
@@ -130,6 +140,7 @@ fn k1_higher_binds_tighter() {
     kani::cover!(la == t.p_a && lb == t.p_b, "k1_reached_higher");
     kani::cover!(t.p_b == t.p_a + 1 && !t.right_a, "k1_adjacent_left");
     kani::cover!(t.p_b == t.p_a + 1 && t.right_a, "k1_adjacent_right");
+    cex_marker();
     assert!(ra < lb, "k1_higher_binds_tighter: p_b > p_a but the parser does not let b take the operand (r_bp(a) >= l_bp(b))");
 }
 
@@ -143,6 +154,7 @@ fn k1_lower_binds_looser() {
     kani::cover!(la == t.p_a && lb == t.p_b, "k1_reached_lower");
     kani::cover!(t.p_a == t.p_b + 1 && t.right_a, "k1_adjacent_below_right");
     kani::cover!(t.p_a == t.p_b + 1 && !t.right_a, "k1_adjacent_below_left");
+    cex_marker();
     assert!(!(ra < lb), "k1_lower_binds_looser: p_b < p_a but the parser lets b take the operand (r_bp(a) < l_bp(b))");
 }
 
@@ -154,6 +166,7 @@ fn k1_equal_left() {
     kani::assume(t.p_a == t.p_b && !t.right_a && !t.right_b);
     let (la, ra, lb, _rb) = binding_powers();
     kani::cover!(la == lb, "k1_reached_equal_left");
+    cex_marker();
     assert!(!(ra < lb), "k1_equal_left: equal precedence, LEFT associative, but the parser groups to the right");
 }
 
@@ -165,6 +178,7 @@ fn k1_equal_right() {
     kani::assume(t.p_a == t.p_b && t.right_a && t.right_b);
     let (la, ra, lb, _rb) = binding_powers();
     kani::cover!(la == lb, "k1_reached_equal_right");
+    cex_marker();
     assert!(ra < lb, "k1_equal_right: equal precedence, RIGHT associative, but the parser groups to the left");
 }
 
@@ -178,6 +192,7 @@ fn k1_no_overflow() {
     let (la, ra, lb, rb) = binding_powers();
     kani::cover!(t.p_a == P_MAX && !t.right_a, "k1_max_left");
     kani::cover!(t.p_a == 1 && t.right_a, "k1_min_right");
+    cex_marker();
     assert!(la == t.p_a && lb == t.p_b, "k1_no_overflow: l_bp is the registered precedence");
     assert!(ra != la && rb != lb, "k1_no_overflow: r_bp differs from l_bp");
     assert!((ra > la) == !t.right_a && (rb > lb) == !t.right_b, "k1_no_overflow: r_bp is on the side given by the associativity");
